@@ -30,6 +30,7 @@ def observe(case):
     ta, files, g, ok = CP.run_cp(case)
     try:
         rows = htaio.rows_of(ta.t, case["params"]["rank"])
+        waits = htaio.waits_of(ta.t, case["params"]["rank"])
         canon: Dict[str, Any] = {"ok": ok}
         import contextlib
         import io
@@ -53,7 +54,7 @@ def observe(case):
             except Exception as e:  # noqa: BLE001
                 import traceback
                 canon["breakdown_raises"] = C.exc_name(e) + ": " + str(e)[:100] + " @ " + traceback.format_exc().splitlines()[-3].strip()[:80]
-        return {"rows": rows, "canon": canon}
+        return {"rows": rows, "waits": waits, "canon": canon}
     finally:
         htaio.remove_case_dir(files)
 
@@ -72,7 +73,7 @@ def model(drv, case, obs):
     nid = {n[3]: n for n in c["nodes"]}
     crit = [[nid[u][0], nid[u][1], nid[v][0], nid[v][1]] for u, v in zip(c["path"], c["path"][1:])]
     return drv.call({"op": "c10", "rows": obs["rows"], "annotation": p["annotation"], "i_start": a, "i_end": b,
-                     "zero_launch": p["zero_weight_launch"], "crit": crit})
+                     "zero_launch": p["zero_weight_launch"], "waits": obs.get("waits", []), "crit": crit})
 
 
 def compare(obs, mod) -> List[str]:
